@@ -1347,9 +1347,10 @@ class Config:  # pylint: disable=too-many-instance-attributes
                     and isinstance(field_value, list)
                 ):
                     # configurations held in a list are rendered by the list field, which does
-                    # not know the mask: render them again with it
+                    # not know the mask: render them again with it (and with nothing else changed, so
+                    # that everything not sensitive comes out exactly as without a mask)
                     value = [
-                        item.to_tree(virtual=virtual, sensitive_mask=sensitive_mask)
+                        item.to_tree(sensitive_mask=sensitive_mask)
                         if isinstance(item, Config)
                         else basic
                         for item, basic in zip(field_value, value)
